@@ -675,3 +675,80 @@ func ZZ_C12_invalid_requests() {
 	p3 := zzGuard(func() { _, gerr = e.Get("z") })
 	zz.Assert(!p3 && gerr != nil, "C12.invalid-request/leaves-scopes-unchanged/"+id)
 }
+
+// ZZ_C12_copy_tables_independent: after Copy / DeepCopy neither side sees what
+// the other defines, re-defines or deletes later - for both tables, for names
+// that existed when the copy was taken and for new ones, with the tables of
+// the source empty, nil or holding entries at that moment.
+func ZZ_C12_copy_tables_independent() {
+	v, w := zz.Int64(), zz.Int64()
+	src := NewEnv()
+	pre := zz.Choose(3) // what the source holds when the copy is taken: nothing, a value and a type, two of each
+	if pre >= 1 {
+		src.Define("a", v)
+		src.DefineType("T", int64(0))
+	}
+	if pre == 2 {
+		src.Define("b", v)
+		src.DefineType("U", "")
+	}
+	sc := src.NewEnv()
+	if pre >= 1 {
+		sc.DefineType("S", int64(0))
+		sc.Define("s", v)
+	}
+	var cp *Env
+	form := zz.Choose(3)
+	switch form {
+	case 0:
+		cp = src.Copy()
+	case 1:
+		cp = src.DeepCopy()
+	case 2:
+		cp = sc.DeepCopy().parent // the copy of src made on the way up
+	}
+	side := zz.Choose(2)
+	target, other := src, cp
+	if side == 1 {
+		target, other = cp, src
+	}
+	op := zz.Choose(6)
+	id := []string{"empty", "one", "two"}[pre] + "/" + []string{"copy", "deepcopy", "deepcopy-of-child"}[form] + "/" + []string{"on-source", "on-copy"}[side] + "/" +
+		[]string{"define-new-type", "redefine-type", "define-new-value", "redefine-value", "delete-value", "define-type-from-child"}[op]
+	typeOf := func(e *Env, name string) (reflect.Type, bool) {
+		t, err := e.Type(name)
+		return t, err == nil
+	}
+	tBefore, tOK := typeOf(other, "T")
+	nBefore, nOK := typeOf(other, "N")
+	aBefore, aErr := other.Get("a")
+	zBefore, zErr := other.Get("z")
+	switch op {
+	case 0:
+		zz.Assert(target.DefineType("N", float64(0)) == nil, "C12.copy-tables/operation/"+id)
+	case 1:
+		zz.Assert(target.DefineType("T", "") == nil, "C12.copy-tables/operation/"+id)
+	case 2:
+		zz.Assert(target.Define("z", w) == nil, "C12.copy-tables/operation/"+id)
+	case 3:
+		zz.Assert(target.Define("a", w) == nil, "C12.copy-tables/operation/"+id)
+	case 4:
+		target.Delete("a")
+	case 5:
+		zz.Assert(target.NewEnv().DefineGlobalType("N", float64(0)) == nil, "C12.copy-tables/operation/"+id)
+	}
+	tAfter, tOK2 := typeOf(other, "T")
+	nAfter, nOK2 := typeOf(other, "N")
+	aAfter, aErr2 := other.Get("a")
+	zAfter, zErr2 := other.Get("z")
+	zz.Assert(tOK == tOK2 && tBefore == tAfter && nOK == nOK2 && nBefore == nAfter, "C12.copy-independent/types/"+id)
+	sameA := (aErr == nil) == (aErr2 == nil)
+	if sameA && aErr == nil {
+		x, ok1 := aBefore.(int64)
+		y, ok2 := aAfter.(int64)
+		sameA = ok1 && ok2 && x == y
+	}
+	sameZ := (zErr == nil) == (zErr2 == nil)
+	_, _ = zBefore, zAfter
+	zz.Assert(sameA && sameZ, "C12.copy-independent/values/"+id)
+}
